@@ -23,6 +23,8 @@ def ed_inv(c, e, heap="old"):
     ev = rd(e, _E + "event")
     return z3.And(V.is_obj(ev), Val.ref(ev) >= 0, Val.ref(ev) != Val.ref(e),
                   C.subclass(C.cls_of(Val.ref(ev)), __import__("threading").Event), V.is_bool(rd(ev, "_flag")),
+                  # quiescent state: an outcome is stored only together with the flag
+                  z3.Or(rd(ev, "_flag") == V.B(True), z3.And(V.is_none(rd(e, _E + "exception")), V.is_none(rd(e, _E + "data")))),
                   z3.Or(V.is_none(rd(e, _E + "exception")),
                         z3.And(V.is_obj(rd(e, _E + "exception")),
                                C.subclass(C.cls_of(Val.ref(rd(e, _E + "exception"))), BaseException))))
@@ -30,12 +32,12 @@ def ed_inv(c, e, heap="old"):
 
 def ed_flag(c, e, heap="new"):
     rd = c.old if heap == "old" else c.new
-    return Val.b(rd(rd(e, _E + "event"), "_flag"))
+    return rd(rd(e, _E + "event"), "_flag") == V.B(True)
 
 
 Contract(ED + ".__init__",
          ensures=[("fresh_unset_event", lambda c: z3.And(
-             c.returns, c.fresh_obj(c.new(c.a.self, _E + "event")), z3.Not(ed_flag(c, c.a.self)),
+             c.returns, c.fresh_obj(c.new(c.a.self, _E + "event")), c.new(c.new(c.a.self, _E + "event"), "_flag") == V.B(False),
              V.is_none(c.new(c.a.self, _E + "data")), V.is_none(c.new(c.a.self, _E + "exception"))), ("C16",))],
          modifies=[Field(lambda c: c.a.self, _E + f) for f in ("event", "data", "exception")] + [Fresh("_flag")],
          props=("C16",))
@@ -66,7 +68,7 @@ Contract(ED + ".raise_exception", requires=[("event", lambda c: ed_inv(c, c.a.se
          props=("C16",))
 
 Contract(ED + ".clear", requires=[("event", lambda c: ed_inv(c, c.a.self))],
-         ensures=[("reset", lambda c: z3.And(c.returns, z3.Not(ed_flag(c, c.a.self)), V.is_none(c.new(c.a.self, _E + "data")),
+         ensures=[("reset", lambda c: z3.And(c.returns, c.new(c.old(c.a.self, _E + "event"), "_flag") == V.B(False), V.is_none(c.new(c.a.self, _E + "data")),
                                              V.is_none(c.new(c.a.self, _E + "exception"))), ("C16",))],
          modifies=[Field(lambda c: c.a.self, _E + "data"), Field(lambda c: c.a.self, _E + "exception"),
                    Field(lambda c: c.old(c.a.self, _E + "event"), "_flag")],
@@ -77,6 +79,7 @@ Contract(ED + ".wait", requires=[("event", lambda c: ed_inv(c, c.a.self))],
              ("false_only_while_not_set", lambda c: implies(z3.And(c.returns, z3.Not(V.truthy(c.ret))),
                                                             z3.Not(ed_flag(c, c.a.self, "old"))), ("C16",)),
              ("true_means_set", lambda c: implies(z3.And(c.returns, V.truthy(c.ret)), ed_flag(c, c.a.self)), ("C16",)),
+             ("flag_stays_boolean", lambda c: V.is_bool(c.new(c.old(c.a.self, _E + "event"), "_flag")), ("C16",)),
              ("set_event_answers_at_once", lambda c: implies(
                  ed_flag(c, c.a.self, "old"),
                  z3.If(V.is_none(c.old(c.a.self, _E + "exception")), z3.And(c.returns, V.truthy(c.ret)),
@@ -88,3 +91,141 @@ Contract(ED + ".wait", requires=[("event", lambda c: ed_inv(c, c.a.self))],
          ],
          modifies=[Field(lambda c: c.old(c.a.self, _E + "event"), "_flag")],
          props=("C16",))
+
+
+# --- FutureResult (sequential contracts: C16, C09) ------------------------------------------------------------------------------
+_CB, _EX = "_FutureResult__callback", "_FutureResult__extra"
+FJ = z3.Int("FREE!j")
+
+
+def _appended(lst, item):
+    return V.VList(Val.llen(lst) + 1, z3.Store(Val.lat(lst), Val.llen(lst), item))
+
+ENVG = [Ghost(g) for g in ("call_log", "env_calls", "env_outcomes", "env_kind", "env_val", "bind_err")]
+
+
+def fut_inv(c, f, heap="old"):
+    rd = c.old if heap == "old" else c.new
+    de = rd(f, "_done_event")
+    lg = rd(f, "_logger")
+    return z3.And(V.is_obj(de), Val.ref(de) >= 0, Val.ref(de) != Val.ref(f), C.subclass(C.cls_of(Val.ref(de)), TP.EventData),
+                  ed_inv(c, de, heap), Val.ref(rd(de, _E + "event")) != Val.ref(f),
+                  V.is_obj(lg), Val.ref(lg) >= 0, V.is_list(c.gold("call_log")), Val.llen(c.gold("call_log")) >= 0,
+                  V.is_list(c.gold("env_outcomes")), Val.llen(c.gold("env_outcomes")) == Val.llen(c.gold("call_log")))
+
+
+def _done(c, f, heap="new"):
+    rd = c.old if heap == "old" else c.new
+    return ed_flag(c, rd(f, "_done_event"), heap)
+
+
+def _dat(c, f, heap="new"):
+    rd = c.old if heap == "old" else c.new
+    return rd(rd(f, "_done_event"), _E + "data")
+
+
+def _exn(c, f, heap="new"):
+    rd = c.old if heap == "old" else c.new
+    return rd(rd(f, "_done_event"), _E + "exception")
+
+
+def _log_at(c, k):
+    return z3.Select(Val.lat(c.gnew("call_log")), Val.llen(c.gold("call_log")) + k)
+
+
+def _outcome_at(c, k):
+    return z3.Select(Val.lat(c.gnew("env_outcomes")), Val.llen(c.gold("env_outcomes")) + k)
+
+
+def _ncalls(c):
+    return Val.llen(c.gnew("call_log")) - Val.llen(c.gold("call_log"))
+
+
+Contract(FR_ + ".__init__", kinds={"logger": "val"},
+         ensures=[("not_done_no_callback", lambda c: z3.And(
+             c.returns, z3.Not(_done(c, c.a.self)), V.is_none(c.new(c.a.self, _CB)), V.is_none(c.new(c.a.self, _EX)),
+             c.fresh_obj(c.new(c.a.self, "_done_event"))), ("C16", "C09"))],
+         modifies=[Field(lambda c: c.a.self, f) for f in ("_logger", "_done_event", _CB, _EX)] +
+                  [Fresh(_E + f) for f in ("event", "data", "exception")] + [Fresh("_flag")],
+         props=("C16",))
+
+Contract(FR_ + ".done", requires=[("future", lambda c: fut_inv(c, c.a.self))],
+         ensures=[("reports_completion", lambda c: z3.And(c.returns, c.ret == V.VBool(_done(c, c.a.self, "old"))), ("C16", "C09"))],
+         modifies=[], props=("C16",))
+
+Contract(FR_ + ".result", requires=[("future", lambda c: fut_inv(c, c.a.self))],
+         ensures=[
+             ("timeout_is_oserror_only_while_not_done", lambda c: implies(
+                 z3.Not(_done(c, c.a.self, "old")),
+                 z3.Or(c.raises(OSError), _done(c, c.a.self))), ("C16",)),
+             ("done_future_yields_its_outcome_at_once", lambda c: implies(
+                 _done(c, c.a.self, "old"),
+                 z3.If(V.is_none(_exn(c, c.a.self, "old")), z3.And(c.returns, c.ret == _dat(c, c.a.self, "old")),
+                       z3.And(c.raised, c.exc == _exn(c, c.a.self, "old")))), ("C16", "C09")),
+             ("outcome_kept", lambda c: z3.And(_dat(c, c.a.self) == _dat(c, c.a.self, "old"),
+                                               _exn(c, c.a.self) == _exn(c, c.a.self, "old")), ("C16",)),
+         ],
+         modifies=[Field(lambda c: c.old(c.old(c.a.self, "_done_event"), _E + "event"), "_flag"), Fresh("args")],
+         props=("C16",))
+
+Contract(FR_ + ".__notify", requires=[("future", lambda c: fut_inv(c, c.a.self))],
+         ensures=[
+             ("no_callback_no_call", lambda c: implies(V.is_none(c.old(c.a.self, _CB)), z3.And(
+                 c.returns, c.gnew("call_log") == c.gold("call_log"), c.gnew("env_outcomes") == c.gold("env_outcomes"))), ("C16",)),
+             ("callback_called_once_with_outcome", lambda c: implies(z3.Not(V.is_none(c.old(c.a.self, _CB))), z3.And(
+                 c.gnew("call_log") == _appended(c.gold("call_log"), tup(
+                     c.old(c.a.self, _CB), tup(_dat(c, c.a.self, "old"), _exn(c, c.a.self, "old"), c.old(c.a.self, _EX)),
+                     V.empty_dict())),
+                 Val.llen(c.gnew("env_outcomes")) == Val.llen(c.gold("env_outcomes")) + 1,
+                 z3.Implies(z3.And(FJ >= 0, FJ < Val.llen(c.gold("env_outcomes"))),
+                            z3.Select(Val.lat(c.gnew("env_outcomes")), FJ) == z3.Select(Val.lat(c.gold("env_outcomes")), FJ)))),
+              ("C16",)),
+             ("callback_errors_are_contained", lambda c: z3.And(
+                 c.returns, _dat(c, c.a.self) == _dat(c, c.a.self, "old"), _exn(c, c.a.self) == _exn(c, c.a.self, "old"),
+                 _done(c, c.a.self) == _done(c, c.a.self, "old")), ("C16",)),
+             ("logs_stay_aligned", lambda c: Val.llen(c.gnew("env_outcomes")) == Val.llen(c.gnew("call_log")), ("C16",)),
+         ],
+         modifies=ENVG, props=("C16",))
+
+Contract(FR_ + ".set_callback", requires=[("future", lambda c: fut_inv(c, c.a.self))],
+         ensures=[
+             ("registration_stored", lambda c: z3.And(c.new(c.a.self, _CB) == c.a.method, c.new(c.a.self, _EX) == c.a.extra), ("C16",)),
+             ("finished_task_notifies_immediately", lambda c: implies(
+                 z3.And(_done(c, c.a.self, "old"), z3.Not(V.is_none(c.a.method))),
+                 z3.And(c.returns, _ncalls(c) == 1,
+                        _log_at(c, 0) == tup(c.a.method, tup(_dat(c, c.a.self, "old"), _exn(c, c.a.self, "old"), c.a.extra),
+                                             V.empty_dict()))), ("C16",)),
+             ("pending_task_defers_notification", lambda c: implies(z3.Not(_done(c, c.a.self, "old")),
+                                                                    z3.And(c.returns, _ncalls(c) == 0)), ("C16",)),
+         ],
+         modifies=[Field(lambda c: c.a.self, _CB), Field(lambda c: c.a.self, _EX)] + ENVG, props=("C16",))
+
+
+def _task_call(c):
+    a = z3.If(V.is_none(c.a.args), V.empty_list(), c.a.args)
+    k = z3.If(V.is_none(c.a.kwargs), V.empty_dict(), c.a.kwargs)
+    return tup(c.a.method, a, k)
+
+
+Contract(FR_ + ".execute",
+         requires=[("future", lambda c: fut_inv(c, c.a.self)),
+                   ("task", lambda c: z3.And(z3.Or(V.is_none(c.a.args), V.is_list(c.a.args), V.is_tuple(c.a.args)),
+                                             z3.Or(V.is_none(c.a.kwargs), V.is_dict(c.a.kwargs))))],
+         ensures=[
+             ("task_runs_exactly_once_first", lambda c: z3.And(_ncalls(c) >= 1, _log_at(c, 0) == _task_call(c)), ("C09", "C16")),
+             ("result_is_the_very_object", lambda c: implies(c.returns, z3.And(
+                 _done(c, c.a.self), _outcome_at(c, 0) == tup(V.I(0), _dat(c, c.a.self)), V.is_none(_exn(c, c.a.self)))),
+              ("C09", "C16")),
+             ("exception_is_the_very_object_and_propagates", lambda c: implies(c.raised, z3.And(
+                 _done(c, c.a.self), _outcome_at(c, 0) == tup(V.I(1), c.exc), _exn(c, c.a.self) == c.exc,
+                 V.is_none(_dat(c, c.a.self)))), ("C09", "C16")),
+             ("callback_notified_once_after_completion", lambda c: z3.If(
+                 V.is_none(c.old(c.a.self, _CB)), _ncalls(c) == 1,
+                 z3.And(_ncalls(c) == 2,
+                        _log_at(c, 1) == tup(c.old(c.a.self, _CB), tup(_dat(c, c.a.self), _exn(c, c.a.self), c.old(c.a.self, _EX)),
+                                             V.empty_dict()))), ("C16",)),
+         ],
+         modifies=[Field(lambda c: c.old(c.a.self, "_done_event"), _E + "data"),
+                   Field(lambda c: c.old(c.a.self, "_done_event"), _E + "exception"),
+                   Field(lambda c: c.old(c.old(c.a.self, "_done_event"), _E + "event"), "_flag")] + ENVG,
+         props=("C09", "C16"))
